@@ -7,107 +7,68 @@ Notation operand := (@operand ROps).
 Notation cmd := (@cmd ROps).
 Notation pickup := (@pickup ROps).
 
-Theorem C14_radius_roundtrip :
-  forall x : T ROps,
-       k_radius_inverse_scale ROps (k_radius_scale ROps x) = x /\
-       k_radius_scale ROps (k_radius_inverse_scale ROps x) = x.
-Proof. exact radius_roundtrip. Qed.
-Print Assumptions C14_radius_roundtrip.
+Theorem C14_scale_roundtrips :
+  (forall x : T ROps,
+        k_radius_inverse_scale ROps (k_radius_scale ROps x) = x /\
+        k_radius_scale ROps (k_radius_inverse_scale ROps x) = x) /\
+       (forall x : T ROps,
+        k_thickness_inverse_scale ROps (k_thickness_scale ROps x) = x /\
+        k_thickness_scale ROps (k_thickness_inverse_scale ROps x) = x) /\
+       (forall x : T ROps,
+        k_index_inverse_scale ROps (k_index_scale ROps x) = x /\
+        k_index_scale ROps (k_index_inverse_scale ROps x) = x) /\
+       (forall (k : Z) (x : T ROps),
+        (0 <= k)%Z ->
+        k_asphere_inverse_scale ROps (k_asphere_scale ROps x k) k = x /\
+        k_asphere_scale ROps (k_asphere_inverse_scale ROps x k) k = x) /\
+       (forall x : T ROps,
+        k_conic_inverse_scale ROps (k_conic_scale ROps x) = x /\
+        k_tilt_inverse_scale ROps (k_tilt_scale ROps x) = x /\
+        k_decenter_inverse_scale ROps (k_decenter_scale ROps x) = x /\
+        k_poly_inverse_scale ROps (k_poly_scale ROps x) = x /\
+        k_base_inverse_scale ROps (k_base_scale ROps x) = x).
+Proof. exact scale_roundtrips. Qed.
+Print Assumptions C14_scale_roundtrips.
 
-Theorem C14_thickness_roundtrip :
-  forall x : T ROps,
-       k_thickness_inverse_scale ROps (k_thickness_scale ROps x) = x /\
-       k_thickness_scale ROps (k_thickness_inverse_scale ROps x) = x.
-Proof. exact thickness_roundtrip. Qed.
-Print Assumptions C14_thickness_roundtrip.
-
-Theorem C14_index_roundtrip :
-  forall x : T ROps,
-       k_index_inverse_scale ROps (k_index_scale ROps x) = x /\
-       k_index_scale ROps (k_index_inverse_scale ROps x) = x.
-Proof. exact index_roundtrip. Qed.
-Print Assumptions C14_index_roundtrip.
-
-Theorem C14_asphere_roundtrip :
-  forall (k : Z) (x : T ROps),
-       (0 <= k)%Z ->
-       k_asphere_inverse_scale ROps (k_asphere_scale ROps x k) k = x /\
-       k_asphere_scale ROps (k_asphere_inverse_scale ROps x k) k = x.
-Proof. exact asphere_roundtrip. Qed.
-Print Assumptions C14_asphere_roundtrip.
-
-Theorem C14_identity_roundtrips :
-  forall x : T ROps,
-       k_conic_inverse_scale ROps (k_conic_scale ROps x) = x /\
-       k_tilt_inverse_scale ROps (k_tilt_scale ROps x) = x /\
-       k_decenter_inverse_scale ROps (k_decenter_scale ROps x) = x /\
-       k_poly_inverse_scale ROps (k_poly_scale ROps x) = x /\
-       k_base_inverse_scale ROps (k_base_scale ROps x) = x.
-Proof. exact identity_roundtrips. Qed.
-Print Assumptions C14_identity_roundtrips.
-
-Theorem C14_radius_scale_units :
-  forall r : T ROps, k_radius_scale ROps r = radius_units r.
-Proof. exact radius_scale_units. Qed.
-Print Assumptions C14_radius_scale_units.
-
-Theorem C14_thickness_scale_units :
-  forall t : T ROps, k_thickness_scale ROps t = thickness_units t.
-Proof. exact thickness_scale_units. Qed.
-Print Assumptions C14_thickness_scale_units.
-
-Theorem C14_index_scale_units :
-  forall n : T ROps, k_index_scale ROps n = index_units n.
-Proof. exact index_scale_units. Qed.
-Print Assumptions C14_index_scale_units.
-
-Theorem C14_asphere_scale_units :
-  forall (k : Z) (c : T ROps), k_asphere_scale ROps c k = asphere_units k c.
-Proof. exact asphere_scale_units. Qed.
-Print Assumptions C14_asphere_scale_units.
-
-Theorem C14_scale_inverse :
-  forall (v : var) (x : T ROps),
-       var_ok v -> inverse_of v (scale_of v x) = x /\ scale_of v (inverse_of v x) = x.
-Proof. exact scale_inverse. Qed.
-Print Assumptions C14_scale_inverse.
+Theorem C14_scale_units :
+  (forall r : T ROps, k_radius_scale ROps r = radius_units r) /\
+       (forall t : T ROps, k_thickness_scale ROps t = thickness_units t) /\
+       (forall n : T ROps, k_index_scale ROps n = index_units n) /\
+       (forall (k : Z) (c : T ROps), k_asphere_scale ROps c k = asphere_units k c).
+Proof. exact scale_units. Qed.
+Print Assumptions C14_scale_units.
 
 Theorem C14_scale_mono :
   forall (v : var) (x y : R), var_ok v -> (x <= y)%R <-> (scale_of v x <= scale_of v y)%R.
 Proof. exact scale_mono. Qed.
 Print Assumptions C14_scale_mono.
 
-Theorem C14_set_get :
-  forall (v : var) (x : R) (s : store), var_ok v -> var_get (var_set v x s) v = x.
-Proof. exact set_get. Qed.
-Print Assumptions C14_set_get.
+Theorem C14_faithful_handle :
+  (forall (v : var) (x : R) (s : store), var_ok v -> var_get (var_set v x s) v = x) /\
+       (forall (v w : var) (x : R) (s : store),
+        vcoord w <> vcoord v -> var_get (var_set v x s) w = var_get s w) /\
+       (forall (v : var) (x : R),
+        var_ok v -> inverse_of v (scale_of v x) = x /\ scale_of v (inverse_of v x) = x).
+Proof. exact faithful_handle. Qed.
+Print Assumptions C14_faithful_handle.
 
-Theorem C14_set_get_other :
-  forall (v w : var) (x : R) (s : store),
-       vcoord w <> vcoord v -> var_get (var_set v x s) w = var_get s w.
-Proof. exact set_get_other. Qed.
-Print Assumptions C14_set_get_other.
+Theorem C14_bounds_in_value_units :
+  (forall (v : var) (s : store),
+        var_ok v -> within (bounds_spec v) (var_get s v) <-> raw_within v (s (vcoord v))) /\
+       (forall v : var, vscaled v = true -> bounds_impl v = bounds_spec v) /\
+       (forall v : var,
+        match vkind_ v with
+        | KRadius | KThickness | KIndex | KAsphere => False
+        | _ => True
+        end -> bounds_impl v = bounds_spec v).
+Proof. exact bounds_in_value_units. Qed.
+Print Assumptions C14_bounds_in_value_units.
 
-Theorem C14_bounds_units :
-  forall (v : var) (s : store),
-       var_ok v -> within (bounds_spec v) (var_get s v) <-> raw_within v (s (vcoord v)).
-Proof. exact bounds_units. Qed.
-Print Assumptions C14_bounds_units.
-
-Theorem C14_bounds_impl_scaled :
-  forall v : var, vscaled v = true -> bounds_impl v = bounds_spec v.
-Proof. exact bounds_impl_scaled. Qed.
-Print Assumptions C14_bounds_impl_scaled.
-
-Theorem C14_merit_is_sum :
-  forall l : list (R * R * R), @sum_squared ROps l = merit_spec l.
-Proof. exact merit_is_sum. Qed.
-Print Assumptions C14_merit_is_sum.
-
-Theorem C14_fun_is_merit :
-  forall l : list (R * R * R), @fun_guard ROps (@sum_squared ROps l) = merit_spec l.
-Proof. exact fun_is_merit. Qed.
-Print Assumptions C14_fun_is_merit.
+Theorem C14_merit_function :
+  (forall l : list (R * R * R), @sum_squared ROps l = merit_spec l) /\
+       (forall l : list (R * R * R), @fun_guard ROps (@sum_squared ROps l) = merit_spec l).
+Proof. exact merit_function. Qed.
+Print Assumptions C14_merit_function.
 
 Theorem C14_fixed_state_is_returned_solution :
   forall (upd : store -> store) (tgt : coord -> bool),
@@ -176,7 +137,7 @@ Theorem C14_fixed_pickups_solves_satisfied :
 Proof. exact fixed_pickups_solves_satisfied. Qed.
 Print Assumptions C14_fixed_pickups_solves_satisfied.
 
-Theorem C14_impl_state_is_last_parent_eval :
+Theorem C14_impl_state :
   forall (upd : store -> store) (tgt : coord -> bool),
        (forall (s : store) (c : coord), tgt c = false -> upd s c = s c) ->
        forall vars : list var,
@@ -184,18 +145,12 @@ Theorem C14_impl_state_is_last_parent_eval :
        NoDup (map vcoord vars) ->
        (forall v : var, In v vars -> tgt (vcoord v) = false) ->
        forall (tr tr' : list (bool * list R)) (x : list R) (xstar : list (T ROps)) (s : store),
-       Datatypes.length x = Datatypes.length vars ->
-       Forall (fun e : bool * list R => fst e = false) tr' ->
-       getv vars (optimize_impl upd vars (tr ++ (true, x) :: tr') xstar s) = x.
-Proof. exact impl_state_is_last_parent_eval. Qed.
-Print Assumptions C14_impl_state_is_last_parent_eval.
-
-Theorem C14_impl_state_workers_only :
-  forall (upd : store -> store) (vars : list var) (tr : list (bool * list R))
-         (xstar : list (T ROps)) (s : store),
-       Forall (fun e : bool * list R => fst e = false) tr -> optimize_impl upd vars tr xstar s = s.
-Proof. exact impl_state_workers_only. Qed.
-Print Assumptions C14_impl_state_workers_only.
+       (Datatypes.length x = Datatypes.length vars ->
+        Forall (fun e : bool * list R => fst e = false) tr' ->
+        getv vars (optimize_impl upd vars (tr ++ (true, x) :: tr') xstar s) = x) /\
+       (Forall (fun e : bool * list R => fst e = false) tr -> optimize_impl upd vars tr xstar s = s).
+Proof. exact impl_state. Qed.
+Print Assumptions C14_impl_state.
 
 Theorem C14_undo_restores :
   forall (upd : store -> store) (tgt : coord -> bool),
@@ -225,17 +180,13 @@ Theorem C14_undo_restores_impl_partial :
 Proof. exact undo_restores_impl_partial. Qed.
 Print Assumptions C14_undo_restores_impl_partial.
 
-Theorem C14_upd_pickups_frame :
-  forall (pks : list pickup) (s : store) (c : coord),
-       pk_target pks c = false -> upd_pickups pks s c = s c.
-Proof. exact upd_pickups_frame. Qed.
-Print Assumptions C14_upd_pickups_frame.
-
-Theorem C14_upd_pickups_dep :
-  forall (pks : list pickup) (s s' : store),
-       flat pks ->
-       (forall c : coord, pk_target pks c = false -> s c = s' c) ->
-       upd_pickups pks s = upd_pickups pks s'.
-Proof. exact upd_pickups_dep. Qed.
-Print Assumptions C14_upd_pickups_dep.
+Theorem C14_upd_pickups_hypotheses :
+  forall pks : list pickup,
+       (forall (s : store) (c : coord), pk_target pks c = false -> upd_pickups pks s c = s c) /\
+       (flat pks ->
+        forall s s' : store,
+        (forall c : coord, pk_target pks c = false -> s c = s' c) ->
+        upd_pickups pks s = upd_pickups pks s').
+Proof. exact upd_pickups_hypotheses. Qed.
+Print Assumptions C14_upd_pickups_hypotheses.
 
